@@ -331,6 +331,7 @@ _tag_re = re.compile(_tag)
 #
 _quoted = r'"(([^\015\012\\"]|\\["\\])*)"'
 _quoted_re = re.compile(_quoted)
+_quoted_pair_re = re.compile(r'\\(["\\])')
 
 # A literal string has a 'literal prefix' which is of the from {\d}?+CRLF.
 # The "+" indicates a non-synchronizing literal
@@ -2070,7 +2071,10 @@ class IMAPClientCommand:
     def _p_string(self) -> str:
         """A string is either a 'quoted string' or a 'literal string'"""
         try:
-            return self._p_re(_quoted_re)[1:-1]
+            # Inside a quoted string '\' quotes the next character (which can
+            # only be '"' or '\').
+            #
+            return _quoted_pair_re.sub(r"\1", self._p_re(_quoted_re)[1:-1])
         except NoMatch:
             pass
 
